@@ -226,13 +226,21 @@ var templates = []struct {
 	{"table_build", `local t = {} local i = 0 while true do i = i + 1 t[i % 100 + 1] = {i} tick() end`, false},
 	{"closure_churn", `while true do local f = function() tick() return function() return 1 end end f()() end`, false},
 	{"vararg_churn", `local function v(...) tick() return select('#', ...), ... end while true do v(v(1, 2, 3)) end`, false},
+	{"multi_line_loop", "local n = 0\nlocal function f(x)\n  return x + 1\nend\n\nwhile true do\n  n = f(n)\n  tick()\nend\n", false},
+	{"multi_line_empty_loop", "local n = 0\nn = n + 1\n\nwhile true do\nend\n", false},
 	{"terminating_loop", `local s = 0 for i = 1, PARAM do s = s + i tick() end emit(s)`, true},
 	{"terminating_calls", `local function f(n) tick() if n == 0 then return 0 end return n + f(n - 1) end emit(f(PARAM)) emit(pcall(f, 3))`, true},
 }
 
 // templates that need no library function: they also run in a state created with SkipOpenLibs
 var bareTemplates = map[string]bool{"tight_while": true, "tight_while_noticks": true, "numeric_for": true, "generic_for": true, "repeat_loop": true, "goto_loop": true,
-	"deep_recursion": true, "tail_call_loop": true, "mutual_tail": true, "table_build": true, "closure_churn": true, "terminating_loop": true}
+	"deep_recursion": true, "tail_call_loop": true, "multi_line_empty_loop": true, "mutual_tail": true, "table_build": true, "closure_churn": true, "terminating_loop": true}
+
+var errLineRe = regexp.MustCompile(`^<string>:(\d+):`)
+var loopLines = map[string]map[string]bool{
+	"multi_line_loop":       {"3": true, "6": true, "7": true, "8": true, "9": true},
+	"multi_line_empty_loop": {"4": true, "5": true},
+}
 
 type CancelCase struct {
 	Template string `json:"template"`
@@ -307,6 +315,14 @@ var chkCancel = vf.Register("cancel_everywhere", func(k *vf.C, c *CancelCase) er
 		}
 		if !strings.Contains(r.err.Error(), "context canceled") {
 			return fmt.Errorf("%s: the error does not carry the context's reason: %s", where, clip(r.err.Error(), 200))
+		}
+		// once the loop of a multi-line template is running, the error names a line of the loop (or of the function it
+		// calls), not of the statements in front of it
+		if ok := loopLines[c.Template]; ok != nil && c.Mode == "poll" && p > 12 && c.Attach == "" {
+			if m := errLineRe.FindStringSubmatch(r.err.Error()); m == nil || !ok[m[1]] {
+				return fmt.Errorf("%s: the loop has been running for a while, the error is reported against %s", where, clip(r.err.Error(), 80))
+			}
+			k.Class("line_of_the_cancellation_error_checked")
 		}
 		if r.pollsAfter > deepest {
 			deepest = r.pollsAfter
